@@ -442,6 +442,10 @@ class _Life:
                 # link lost and a new session: the log subsystem is reset by the TOC refresh
                 link.held[:] = []
                 self.dev.blocks.clear()
+                # the Crazyflie that answers now has another firmware build: same variables, another table order (and
+                # checksum), so every identifier changes
+                self.dev.log = self.dev.log[1:] + self.dev.log[:1]
+                self.dev.log_crc = (self.dev.log_crc + 1) & 0xffffffff
                 cf.link = None
                 cf.disconnected.call('sim://0')
                 cf.connection_requested.call('sim://0')
@@ -460,6 +464,15 @@ class _Life:
         except Exception as e:  # noqa
             self.errors.append((ev, repr(e)))
         self.sent = [d for h, d in link.tx[tx0:] if (h >> 4) == 5 and (h & 3) == 1 and d[0] != 5]
+        if ev in ('add', 'start') and self.sent and self.sent[0][:1] == b'\x06' and not self.errors:
+            # the create request names the variables by their identifiers in the table of the device connected NOW
+            body = self.sent[0][2:]
+            got = [body[j + 1] | (body[j + 2] << 8) for j in range(0, len(body) - 2, 3)]
+            exp = [_id_of(self.dev, v.name)[0] for v in conf.variables]
+            # (a long list continues in append requests once this one is acknowledged: compare what this one carries)
+            if got != exp[:len(got)] or not got:
+                self.errors.append(('add:stale_ids', 'create request carries variable ids %r, in the connected device\'s table '
+                                    '%r have the ids %r' % (got, [v.name for v in conf.variables], exp)))
 
     def _model_ack(self, payload):
         cmd, bid, st = payload[0], payload[1], payload[2]
@@ -503,6 +516,9 @@ class _Life:
         kind = 'reconnect' if 'reconnect' in hist else 'single_session'
         if self.errors:
             ev, err = self.errors[-1]
+            if ev == 'add:stale_ids':
+                p.violation('life:create_request_ids:%s' % kind, 'history %r: %s' % (hist, err), rp)
+                return False
             p.violation('life:operation_raised:%s:%s' % (ev.split(':')[0], err.split('(')[0]),
                         'history %r: %s raised %s' % (hist, ev, err), rp)
             return False
